@@ -109,7 +109,7 @@ def seq_spec_leg(res, prop, spec, rng, projects, a, known_matcher=None):
     if rp and "sequence" not in rp["input"]:
         return stats
     if rp:
-        seqs = [(rp.get("openapi", "3.0.0"), [(x["edit"], x["project"]) for x in rp["input"]["sequence"]])]
+        seqs = [(rp.get("openapi", "3.0.0"), [(x["edit"], x["project"], x.get("extra")) for x in rp["input"]["sequence"]])]
     else:
         nb = 1 if a.tier == "quick" else 8
         bases = [p for p in projects if p["controllers"] and p["controllers"][0]["methods"]][-nb:]
